@@ -326,6 +326,7 @@ def tree_case(case):
     sg = harness.load(); nn = sg.nn
     shape, own_first, post_assign = case["tree"], case["own_first"], case["attach"]
     counter = [0]; expected = []; allmods = []
+    pre = case.get("names", "")        # attribute naming convention: plain, private-looking (leading underscore), dunder-free capitals
     def build(children):
         m = nn.Module(); allmods.append(m)
         counter[0] += 1
@@ -333,18 +334,18 @@ def tree_case(case):
         subs = []
         has_own = not (case.get("bare_inner") and children)     # bare_inner: containers hold no parameter of their own
         if own_first and has_own:
-            m.w = p
+            setattr(m, pre + "w", p)
         if post_assign == "bottom_up":
             built = [build(tuple(c)) for c in children]
-            for i, (cm, cexp) in enumerate(built): setattr(m, f"c{i}", cm)
+            for i, (cm, cexp) in enumerate(built): setattr(m, f"{pre}c{i}", cm)
             subs = [e for _, e in built]
         else:                                                # attach empty children first, fill them afterwards
             built = []
             for i, c in enumerate(children):
-                cm, cexp = build(tuple(c)); setattr(m, f"c{i}", cm); built.append((cm, cexp))
+                cm, cexp = build(tuple(c)); setattr(m, f"{pre}c{i}", cm); built.append((cm, cexp))
             subs = [e for _, e in built]
         if not own_first and has_own:
-            m.w = p
+            setattr(m, pre + "w", p)
         return m, ([p.size] if has_own else []) + [x for e in subs for x in e]
     root, exp = build(tuple(shape))
     viol = []
@@ -412,6 +413,8 @@ def run(tier, seed):
             for vv in sequential_case(c):
                 res.violations.append(dict(vv, case=c))
     trees = [{"tree": t, "own_first": of, "attach": at} for t in tree_shapes(5 if tier == "quick" else 6) for of in (True, False) for at in ("bottom_up", "top_down")]
+    # the attribute NAME is the user's choice: a private-looking or capitalised name registers like any other
+    trees += [{"tree": t, "own_first": of, "attach": "bottom_up", "names": nm} for t in tree_shapes(4) for of in (True, False) for nm in ("_", "__priv_", "X")]
     trees += [{"tree": t, "own_first": True, "attach": at, "bare_inner": True} for t in tree_shapes(5 if tier == "quick" else 6) for at in ("bottom_up", "top_down")]
     with harness.quiet():
         for c in trees:
